@@ -76,7 +76,7 @@ class SchemeArgument(str, Enum):
 
 
 def _print_Piecewise(
-    printer: CodePrinter, expr: sympy.Piecewise, **kwargs
+    printer: CodePrinter, expr: sympy.Piecewise, simplify: bool = True, **kwargs
 ) -> tuple[tuple[str, ...], tuple[str, ...]]:
     from sympy.logic.boolalg import ITE, simplify_logic
     from sympy.core.relational import Relational
@@ -92,6 +92,8 @@ def _print_Piecewise(
     # to simplify it or turns it into something that is no longer a Piecewise
     # ending with a default (True) branch, which is what the printers expect.
     try:
+        if not simplify:
+            raise ValueError("Keep the expression as it is")
         # Evaluate the numbers in the conditions first: sympy.simplify turns e.g.
         # 'v >= -1*0.5' (an unevaluated product) into the strict inequality 'v > -0.5'
         # (also in nested conditionals)
